@@ -175,6 +175,9 @@ class _EditBase:
 class set_edit_pos(_EditBase):
     self_shape = EDIT
     invariant = staticmethod(RI)
+    # set_edit_text calls it right after storing a (possibly shorter) text, to pull the cursor back into range:
+    # verified for ANY stored cursor offset, and it must establish the invariant
+    establishes_invariant = True
     globals_ = ENC
     replayable = False
     params = dict(pos=Int)
